@@ -53,6 +53,8 @@ pub fn rt_oracle(c: &Rt) -> Verdict {
         ("Display", lib!(format!("{e}"))),
         ("Formatter(ISO8601)", lib!(format!("{}", Formatter::new(e, ISO8601)))),
         ("to_gregorian_str(own)", lib!(e.to_gregorian_str(ts))),
+        // the flexible ISO 8601 formatter leaves out a zero fraction and the UTC suffix: the text denotes the same epoch
+        ("Formatter(ISO8601_FLEX)", lib!(format!("{}", Formatter::new(e, hifitime::efmt::consts::ISO8601_FLEX)))),
     ];
     for (what, txt) in &texts {
         match parse_both(txt) {
@@ -88,6 +90,13 @@ pub fn rt_oracle(c: &Rt) -> Verdict {
     }
     // RFC 3339 of a UTC epoch
     if c.s == S_UTC {
+        for (what, t) in [("Formatter(RFC3339)", lib!(format!("{}", Formatter::new(e, hifitime::efmt::consts::RFC3339)))), ("Formatter(RFC3339_FLEX)", lib!(format!("{}", Formatter::new(e, hifitime::efmt::consts::RFC3339_FLEX))))] {
+            match parse_both(&t) {
+                Ok(Ok(p)) => ensure!(same(&p, &e), "{} {:?} parses to count {}, want {}", what, t, count(p.duration), cnt),
+                Ok(Err(err)) => return Verdict::Fail(format!("{} text {:?} does not parse: {:?}", what, t, err)),
+                Err(m) => return Verdict::Fail(m),
+            }
+        }
         let r = lib!(e.to_rfc3339());
         match parse_both(&r) {
             Ok(Ok(p)) => ensure!(same(&p, &e), "to_rfc3339 {:?} parses to count {}, want {}", r, count(p.duration), cnt),
